@@ -1,6 +1,6 @@
-"""C11 - the OUTPUT4 readers decode every binary file variant laid out by an
-independent encoder; listings match reads; skipping leaves the stream at the
-next block."""
+"""C11 - the OUTPUT4 (binary and ASCII) and OUTPUT2 readers decode every file
+variant laid out by independent encoders; listings match reads; skipping leaves
+the stream at the next block."""
 import itertools
 import time
 
@@ -18,15 +18,19 @@ PID = "C11"
 
 META = dict(
     level="other",
-    stubs=["file object -> symbolic record stream (word-granular fields; symbolic string start rows and lengths, opaque payload numbers)",
+    stubs=["ASCII: file object -> symbolic line stream (vsym/linestream.py); int/float of op4.py resolve card fields; ''.join keeps the field map (AST hook join)",
+           "OUTPUT2: struct.unpack with a native-order format really reinterprets the concrete bytes (format detection); matrix.T.view(complex).T on symbolic data pairs adjacent stored numbers (AST hook view)",
+           "file object -> symbolic record stream (word-granular fields; symbolic string start rows and lengths, opaque payload numbers)",
            "struct.Struct/pack/unpack -> field-typed stand-in that rejects a read with the wrong width, type or byte order",
            "np.fromfile -> served from the stream; np.zeros -> object arrays; scipy.sparse.coo_matrix constructor -> raw (I, J, V) triple",
            "open() -> the stream (so the real _op4open_read/_decode_format do the format detection)"],
-    outside=["OUTPUT2 (op2.py: pandas table post-processing; its record framing is not claimed)", "ASCII OUTPUT4 files laid out by an independent encoder "
-             "(ASCII decoding is exercised writer->reader in C04)", "dense read of complex matrices (dtype reinterpretation of payload)",
+    outside=["OUTPUT2 table post-processing (pandas) and rdop2record forms other than integer", "the |I16 wide-integer ASCII header variant",
+             "dense read of complex binary OUTPUT4 matrices (dtype reinterpretation of payload)",
              "columns longer than the struct/fromfile cut-over other than through a lowered _rowsCutoff"],
     assumptions=["matrices of 5-6 rows x 2 columns, up to 2 matrices per file, up to 2 strings per column of 1-2 (3) numbers",
-                 "tall matrices (65535 rows non-BIGMAT, 200000 rows BIGMAT): one column, two one-number strings at symbolic rows anywhere, sparse read"],
+                 "tall matrices (65535 rows non-BIGMAT, 200000 rows BIGMAT): one column, two one-number strings at symbolic rows anywhere, sparse read",
+                 "ASCII: the same small matrices with strings of up to 3 numbers, formats 5E16.9 / 3E23.16 / 2E16.9 / 4E16.9 / 3E21.14 / none; tall ASCII matrices with a symbolic row count in 3..300000",
+                 "OUTPUT2: first matrix 5 x 2, second 2 x 1, a table of two records in 1-3 parts; file header only in 32-bit files"],
     reach_required=["ascii-dense", "ascii-bigmat", "ascii-nonbigmat", "ascii-dformat", "ascii-multiline", "ascii-skip", "ascii-namelist", "ascii-tall-nonbigmat", "ascii-tall-bigmat", "ascii-tall-bigmat-posnr", "op2", "op2-skip", "op2-table", "op2-bit64", "op2-single", "op2-complex", "op2-fromfile", "tall", "dense", "bigmat", "nonbigmat", "bit64", "big-endian", "single", "complex", "two-strings", "skip", "fromfile", "namelist"],
     trusted_base=["z3 5.1", "the OUTPUT4 binary layout as transcribed in checks/op4kit.py"],
 )
@@ -848,5 +852,11 @@ def extra_coverage(results):
     import pyyeti.nastran.op4 as m
     o = m.OP4
     fns = [o._decode_format, o._op4open_read, o._loadop4_binary, o._rd_dense_binary, o._rd_bigmat_binary, o._rd_nonbigmat_binary, o._skipop4_binary,
-           o._get_funcs, o._check_name, o.dir, o.listload, o._put_binary_values, o._put_binary_values_sparse, o._put_binary_values_sparse_c]
+           o._get_funcs, o._check_name, o.dir, o.listload, o._put_binary_values, o._put_binary_values_sparse, o._put_binary_values_sparse_c,
+           o._loadop4_ascii, o._skipop4_ascii, o._rd_dense_ascii, o._rd_bigmat_ascii, o._rd_nonbigmat_ascii, o._get_ascii_block,
+           o._put_ascii_values, o._put_ascii_values_c, o._put_ascii_values_sparse, o._put_ascii_values_sparse_c]
+    import pyyeti.nastran.op2 as m2
+    o2 = m2.OP2
+    fns += [o2._op2open, o2._getkey, o2._skipkey, o2.rdop2header, o2.rdop2eot, o2.rdop2nt, o2.rdop2matrix, o2.skipop2matrix, o2.directory, o2.rdop2mats,
+            o2._rdmat, o2._get_valid_names, o2.set_position, o2.rdop2record, o2.rdop2tabheaders]
     return dict(functions_encoded=[H.fn_id(getattr(f, "__func__", f)) for f in fns], ast_hook_hits={"%s:%s" % k: v for k, v in astload.HITS.items()})
